@@ -12,7 +12,8 @@ class Property(Base):
     trusted_base = Base.COMMON_TB + [
         "translator T2 (translators/gen_codes.py): WriteResult numbering regenerated from core/src/write.rs",
         "translator T8 (translators/rs2v, syn-based Rust-subset -> Gallina): provider/src/write/state.rs is REGENERATED into Gen/StateGen.v on every run; theorems C03_code_* prove the state-machine functions of Write/Writer.v equal to it for all inputs (trusted: the translation scheme of rs2v and Base/RsPrelude.v: usize arithmetic wraps or panics, Vec = list in push order)",
-        "hand-transcribed model of provider/src/write.rs (the glue around the state machine: which transition each ABI call makes, which bytes it appends) (coq/theories/Write/Writer.v) and of the rmp 0.8.15 encoders (coq/theories/Msgpack/Rmp.v), tied to the code by the correspondence after EVERY call (status + current output bytes through hook verif_output_bytes)",
+        "translator T8 also regenerates every method of `impl Context` in provider/src/write.rs (Gen/WriteCtxGen.v: which transition each call makes, which bytes it appends, the destination pointer of a string write, the provider's own copy of an interned string); theorems C03_code_ctx_* prove Writer.step equal to it on related contexts",
+        "hand-written: the exported wrappers of provider/src/write.rs (`bool != 0`, packing of status and pointer, finalize), the glue's copy into the returned destination (apply_copy), (coq/theories/Write/Writer.v) and of the rmp 0.8.15 encoders (coq/theories/Msgpack/Rmp.v), tied to the code by the correspondence after EVERY call (status + current output bytes through hook verif_output_bytes)",
         "abstract document builder coq/theories/Write/WSpec.v and token grammar Write/Grammar.v are the specification",
     ]
     assumptions = [
@@ -23,7 +24,7 @@ class Property(Base):
 
     def regen(self):
         changed, info = gen_codes.generate(vf.REPO, os.path.join(vf.COQ, "theories/Gen/CodesGen.v"))
-        t8 = gen_rs2v.generate(vf.REPO, "StateGen")
+        t8 = [gen_rs2v.generate(vf.REPO, n) for n in ("StateGen", "InternGen", "WriteCtxGen")]
         return {"WriteResult": info["WriteResult"], "T8": t8}
 
     def decode(self, digests):
